@@ -403,7 +403,7 @@ class Inst:
 class C06(Prop):
     ID = 'C06'
     N_QUICK = 4000
-    N_THOROUGH = 30000
+    N_THOROUGH = 20000
     CASE_TIMEOUT = 120
     RULE = ('random op sequences (3..30 ops quick, ..60 thorough; insert / update / replace / remove / query / re-open) over '
             '3 collections; records = typed index fields (numeric incl. floats and bools, strings with quotes, backslashes, '
